@@ -55,7 +55,14 @@ def frag_lines(rng, payload, fill, n, mid, wild=False):
                       talker=rng.choice([b"AI", b"AI", b"AB", b"BS", b"SA", b"XX"]),
                       report=rng.choice([b"VDM", b"VDM", b"VDO", b"VDX"]),
                       delim=rng.choice([b"!", b"!", b"$"]),
-                      tagblock=rng.choice([None, None, b"s:r%d,c:%d*00" % (i, 1700000000 + i)]))
+                      tagblock=rng.choice([None, None, b"s:r%d,c:%d*00" % (i, 1700000000 + i),
+                                           # NMEA 4.10 grouping that need not coincide with the VDM group (a TAG group may
+                                           # span more lines, start earlier, or be numbered differently), with a right or
+                                           # a wrong checksum of its own: the block is skipped unread
+                                           b"g:%d-%d-%d" % (i + 1, n + 1, 40 + i), b"g:%d-%d-77*00" % (i + 2, n),
+                                           b"s:a%d,g:%d-%d-5" % (i % 2, n - i, n), b"g:1-1-9,s:b*7F",
+                                           # (blocks with two, three and four commas of their own)
+                                           b"s:rx1,c:1696241890,n:%d*74" % (40 + i), b"s:rx1,c:1696241890,n:41,d:x", b"a,b,c,d,e"]))
         else:
             kw = dict(channel=ch)
         lines.append(ais.sentence(p, fill=fl, nf=n, fn=i + 1, mid=mid, **kw))
@@ -385,6 +392,9 @@ class C06:
             # the group is defined by count, number and id: talker and formatter (known or not) play no part
             kw.update(talker=rng.choice([b"AI", b"AB", b"BS", b"XX", b"ai"]), report=rng.choice([b"VDM", b"VDO", b"VDX", b"ABK", b"XYZ"]),
                       delim=rng.choice([b"!", b"$"]))
+        if rng.random() < 0.35:
+            # ... nor does the channel field, present, empty or long
+            kw.update(channel=rng.choice([b"", b"", b"B", b"1", b"AB"]))
         return ais.sentence(payload, nf=n, fn=k, mid=mid, fill=0, **kw)
 
     def cases(self, tier, rng):
@@ -697,6 +707,12 @@ def capacity_boundaries(rng):
                 L(ais.sentence(gen.random_alphabet(rng, n - a), nf=2, fn=2, mid=1, fill=0), 0, rng.randrange(2))]
     for n in range(505, 520):
         ops.append(f"U {rng.randrange(6)} {hexs(gen.random_alphabet(rng, n))}")
+    # every layout cut at every byte length (what a build does with a message that ends early is not a matter of capacity)
+    for t in gen.ALL_TYPES:
+        f = gen.base_fields(t, rng, ais.LAYOUTS[t])
+        bs = gen.full_payload(t, f) + gen.tail_for(t, rng)
+        for n in range(1, len(bs) + 1):
+            ops.append("M " + hexs(bs[:n]))
     ops.append("N 0")
     return ops
 
@@ -1213,7 +1229,67 @@ class C20:
         okb, out, binary = core.cli_build()
         if not okb:
             return
-        self.judge_streams(rep, binary, self.aligned_streams(random.Random(seed)), pid)
+        rng = random.Random(seed)
+        streams = self.aligned_streams(rng)
+        if pid == "C17":
+            streams += self.special_streams(rng) + self.notrace_streams(rng)
+        if pid == "C15":
+            streams = self.binary_streams(rng)
+        self.judge_streams(rep, binary, streams, pid)
+
+    def binary_streams(self, rng):
+        """Binary messages (types 6, 8, 17) of every length class through the tool, whole and as groups of 2-4 sentences whose
+        lines carry tag blocks with 0-4 commas, channels A/B/none: the record shows the identifiers and bytes transmitted."""
+        out = []
+        for _ in range(16):
+            lines = []
+            for _ in range(rng.choice([1, 2, 3])):
+                t = rng.choice([6, 8, 17])
+                f = gen.base_fields(t, rng, ais.LAYOUTS[t])
+                bs = gen.full_payload(t, f) + bytes(rng.getrandbits(8) for _ in range(rng.choice([0, 1, 7, 30, 60, 100])))
+                p, fl = ais.armor(ais.bytes_to_bits(bs))
+                n = rng.choice([1, 2, 2, 3, 4])
+                if n == 1 or len(p) < 2 * n:
+                    lines.append(ais.sentence(p, fill=fl, channel=rng.choice([b"A", b"B", b""])))
+                    continue
+                cuts = sorted(rng.sample(range(1, len(p)), n - 1))
+                pieces = [p[a:b] for a, b in zip([0] + cuts, cuts + [len(p)])]
+                mid = rng.choice([None, 1, 4])
+                tbs = rng.choice([[None] * n, [b"s:rx1,c:1696241890,n:%d*74" % i for i in range(n)], [b"s:r%d" % i for i in range(n)],
+                                  [b"a,b,c,d"] * n, [b"c:%d,s:x" % i for i in range(n)], [b"g:%d-%d-9,s:rx1,c:1" % (i + 1, n) for i in range(n)]])
+                ch = rng.choice([b"A", b"B", b""])
+                for i, pc in enumerate(pieces):
+                    lines.append(ais.sentence(pc, nf=n, fn=i + 1, mid=mid, fill=fl if i == n - 1 else 0, tagblock=tbs[i],
+                                              channel=ch if rng.random() < 0.8 else rng.choice([b"A", b"B", b""])))
+            out.append(b"\n".join(lines) + b"\n")
+        return out
+
+    def notrace_streams(self, rng):
+        """An open group, then lines that leave no trace - each behind a tag block naming another source, group or time
+        than the group's own lines (or none) - then the rest of the group."""
+        out = []
+        for _ in range(12):
+            q_, g_ = gen.valid_message_payload(rng, rng.choice([5, 1, 21]))
+            cut = len(q_) // 2
+            tb1, tb2 = rng.choice([(b"s:rx1,c:1700000000", b"s:rx1,c:1700000001"), (None, None), (b"s:rx1*00", None), (b"g:1-2-5,s:A", b"g:2-2-5,s:A")])
+            f1 = ais.sentence(q_[:cut], nf=2, fn=1, mid=1, fill=0, tagblock=tb1)
+            f2 = ais.sentence(q_[cut:], nf=2, fn=2, mid=1, fill=g_, tagblock=tb2)
+            mid_lines = []
+            for _ in range(rng.choice([1, 2, 5])):
+                tb = rng.choice([b"s:rx2,c:1700000009", b"s:other", b"g:1-1-8,s:rx3", None, b"s:rx2*55"])
+                kind = rng.randrange(4)
+                if kind == 0:
+                    p_, f_ = gen.valid_message_payload(rng, 1)
+                    mid_lines.append(ais.sentence(p_, fill=f_, tagblock=tb))
+                elif kind == 1:
+                    l = ais.sentence(gen.random_alphabet(rng, 9), fill=0, tagblock=tb)
+                    mid_lines.append(l[:-2] + b"%02X" % (int(l[-2:], 16) ^ 0x11))
+                elif kind == 2:
+                    mid_lines.append(ais.sentence(gen.random_alphabet(rng, 9), nf=3, fn=3, mid=2, fill=0, tagblock=tb))
+                else:
+                    mid_lines.append((b"\\" + tb + b"\\" if tb else b"") + b"garbage")
+            out.append(b"\n".join([f1] + mid_lines + [f2]) + b"\n")
+        return out
 
     @staticmethod
     def same_records(got, exp, is_out):
@@ -1281,6 +1357,7 @@ class C20:
         streams = [b"", b"\n", b"\n\n", b"\xff\n", b"!AIVDM,1,1,,A,15M,0*00", b"\r\n"]
         streams += self.block_streams(rng)
         streams += self.aligned_streams(rng)
+        streams += self.binary_streams(rng)
         streams += self.special_streams(rng)
         streams += [self.stream(rng) for _ in range(n)]
         self.judge_streams(rep, binary, streams, "C20")
